@@ -32,34 +32,59 @@ structure Side (ts : TState) : Prop where
 /-- The facts about tasks and workers that the tree layer relies on: a fragment of `SchedInv.Core` and
 `SchedInv.OInv` that does not mention the operation table, the event log or the exemption sets (so that it
 also holds at the intermediate states of `task.complete` / `operation.remove`). -/
-structure MCore (s : State) : Prop where
+structure MCore (ex : Nat → Prop) (s : State) : Prop where
   tnd : (keys s.tasks).Nodup
+  tid : ∀ k t, alookup k s.tasks = some t → t.id = k ∧ k < s.nextTask
   p2 : ∀ k t q w, alookup k s.tasks = some t → t.worker = some (q, w) →
         ∃ wk, wfind s.workers q w = some wk ∧ wk.task = some k
   p3 : ∀ k t, alookup k s.tasks = some t → t.worker.isSome = true → t.response = none
   q1 : ∀ k t, alookup k s.tasks = some t → t.queued = true → t.worker = none ∧ t.response = none
+  /-- an uncompleted task is queued or assigned, unless it is the one being processed -/
+  q2 : ∀ k t, alookup k s.tasks = some t → t.response = none → t.queued = true ∨ t.worker.isSome = true ∨ ex k
   w1 : ∀ q w wk, wfind s.workers q w = some wk → wk.parked = true → wk.task = none
 
 structure MOInv (s : State) : Prop where
   o3 : ∀ k t, alookup k s.tasks = some t → t.ops.Nodup ∧ t.ops ≠ []
+  /-- an operation belongs to one task -/
+  own : ∀ k t k' t' o, alookup k s.tasks = some t → alookup k' s.tasks = some t' → o ∈ t.ops → o ∈ t'.ops → k = k'
+  /-- operation names are issued from `nextOp` -/
+  bound : ∀ k t o, alookup k s.tasks = some t → o ∈ t.ops → o < s.nextOp
 
-structure MInv (s : State) : Prop where
-  core : MCore s
+structure MInv (ex : Nat → Prop) (s : State) : Prop where
+  core : MCore ex s
   oinv : MOInv s
 
-theorem MInv.of_inv {ex exo} {s : State} (h : InvX ex exo s) : MInv s :=
-  ⟨⟨h.core.tnd, h.core.p2, h.core.p3, h.core.q1, fun q w wk a b => (h.core.w1 q w wk a b).1⟩, ⟨h.oinv.o3⟩⟩
+theorem MInv.of_inv {ex} {s : State} (h : InvX ex (fun _ => False) s) : MInv ex s := by
+  refine ⟨⟨h.core.tnd, h.core.tid, h.core.p2, h.core.p3, h.core.q1, h.core.q2,
+    fun q w wk a b => (h.core.w1 q w wk a b).1⟩, ⟨h.oinv.o3, ?_, fun k t o a b => (h.oinv.o2 k t o a b).1⟩⟩
+  intro k t k' t' o h1 h2 ho ho'
+  rcases (h.oinv.o2 k t o h1 ho).2 with b | ⟨op, e1, e2⟩
+  · exact absurd b id
+  · rcases (h.oinv.o2 k' t' o h2 ho').2 with b | ⟨op', e1', e2'⟩
+    · exact absurd b id
+    · rw [e1] at e1'; cases e1'; rw [← e2, ← e2']
 
-/-- `MInv` only looks at tasks and workers -/
-theorem MInv.of_eq {s s' : State} (h : MInv s) (ht : s'.tasks = s.tasks) (hw : s'.workers = s.workers) : MInv s' := by
-  obtain ⟨⟨a, b, c, d, e⟩, ⟨f⟩⟩ := h
-  exact ⟨⟨by rw [ht]; exact a, by rw [ht, hw]; exact b, by rw [ht]; exact c, by rw [ht]; exact d, by rw [hw]; exact e⟩,
-    ⟨by rw [ht]; exact f⟩⟩
+/-- `MInv` only looks at tasks, workers and the two counters -/
+theorem MInv.of_eq {ex} {s s' : State} (h : MInv ex s) (ht : s'.tasks = s.tasks) (hw : s'.workers = s.workers)
+    (hnt : s'.nextTask = s.nextTask) (hno : s'.nextOp = s.nextOp) : MInv ex s' := by
+  obtain ⟨⟨a, a', b, c, d, d', e⟩, ⟨f, g, i⟩⟩ := h
+  exact ⟨⟨by rw [ht]; exact a, by rw [ht, hnt]; exact a', by rw [ht, hw]; exact b, by rw [ht]; exact c, by rw [ht]; exact d,
+    by rw [ht]; exact d', by rw [hw]; exact e⟩, ⟨by rw [ht]; exact f, by rw [ht]; exact g, by rw [ht, hno]; exact i⟩⟩
+
+theorem MInv.mono {ex ex'} {s : State} (h : MInv ex s) (hx : ∀ k, ex k → ex' k) : MInv ex' s := by
+  obtain ⟨⟨a, a', b, c, d, d', e⟩, o⟩ := h
+  refine ⟨⟨a, a', b, c, d, ?_, e⟩, o⟩
+  intro k t h1 h2
+  rcases d' k t h1 h2 with x | x | x
+  · exact Or.inl x
+  · exact Or.inr (Or.inl x)
+  · exact Or.inr (Or.inr (hx k x))
 
 /-- the invariant of the tree layer at a (possibly intermediate) state; `X` = invocations that may still be
-empty.  (`ex`, `exo` are not used any more; they are kept so that statements need not change.) -/
+empty, `ex` = the task that is being processed (neither queued nor assigned for the moment); `exo` is not
+used any more (kept so that statements need not change). -/
 structure TInvX (ex exo : Nat → Prop) (X : List (ScqId × List Nat)) (ts : TState) : Prop where
-  inv : MInv ts.s
+  inv : MInv ex ts.s
   tree : TreeOK X ts.nodes (bagE ts) (bagI ts) (bagQ ts) (bagP ts)
   side : Side ts
 
@@ -75,7 +100,7 @@ structure TS (X : List (ScqId × List Nat)) (ts : TState) : Prop where
   side : Side ts
 
 theorem TInvX.ts {ex exo X ts} (h : TInvX ex exo X ts) : TS X ts := ⟨h.tree, h.side⟩
-theorem TInvX.mk' {ex exo X ts} (hi : MInv ts.s) (h : TS X ts) : TInvX ex exo X ts := ⟨hi, h.tree, h.side⟩
+theorem TInvX.mk' {ex exo X ts} (hi : MInv ex ts.s) (h : TS X ts) : TInvX ex exo X ts := ⟨hi, h.tree, h.side⟩
 theorem TInv.ts {ts} (h : TInv ts) : TS [] ts := ⟨h.tree, h.side⟩
 theorem TInv.x {ts} (h : TInv ts) : TInvX (fun _ => False) (fun _ => False) [] ts := ⟨MInv.of_inv h.inv, h.tree, h.side⟩
 
